@@ -64,3 +64,13 @@ def class_order_queries(tier):
                      'buildClassTable on the chain C extends B extends A (one field each, B overrides A.m) declared in the order %s: layouts '
                      '[v],[v,w],[v,w,u] with slots 0,1,2 and m() dispatched to A, B, B' % names[o], tier))
     return qs
+
+
+LITERALS = ['int 0', 'int 7', 'int 2147483647', 'int 2147483648', 'int 4294967296', 'int 99999999999', 'long 2147483648L', 'long 9223372036854775807L', 'bit 0', 'bit 1']
+
+
+def literal_queries(tier):
+    return [eq('literal %s' % n, 'E2_literal.cpp', 'harness_literal', ['harness_literal'], [i],
+               'eval(LiteralExpression %s), node position symbolic: a value of the literal\'s type, or a located Runtime error when the text does not fit; '
+               'no other exception leaves eval' % n, tier, fp='exact', defines=[], timeout=900)
+            for i, n in enumerate(LITERALS)]
